@@ -54,6 +54,25 @@ M('C01', 'assign-instead-of-increment', RR,
   "        self.temp['coolant_int'] = \\\n"
   "            self._calc_coolant_int_temp(dz, q['pins'], q['cool'], ebal)",
   'C01.R6')
+M('C01', 'shared-coolant-left-at-bypass', RR,
+  "            self._update_coolant_byp_params(self.avg_coolant_byp_temp)\n"
+  "            # The coolant object is shared with the bundle interior:\n"
+  "            # return it to the interior temperature so that the next\n"
+  "            # interior step and the pressure drop use interior properties\n"
+  "            self._update_coolant(self.avg_coolant_int_temp)\n",
+  "            self._update_coolant_byp_params(self.avg_coolant_byp_temp)\n",
+  'C01.R9')
+M('C01', 'shared-coolant-restored-to-bypass', RR,
+  "            # interior step and the pressure drop use interior properties\n"
+  "            self._update_coolant(self.avg_coolant_int_temp)\n",
+  "            # interior step and the pressure drop use interior properties\n"
+  "            self._update_coolant(self.avg_coolant_byp_temp[0])\n",
+  'C01.R9')
+B('C01', 'shared-coolant-restored-via-update', RR,
+  "            # interior step and the pressure drop use interior properties\n"
+  "            self._update_coolant(self.avg_coolant_int_temp)\n",
+  "            # interior step and the pressure drop use interior properties\n"
+  "            self.coolant.update(self.avg_coolant_int_temp)\n")
 M('C01', 'carry-interior-mean', 'dassh/region.py',
   'avg_cool_temp = previous_reg.avg_coolant_temp',
   'avg_cool_temp = previous_reg.avg_coolant_int_temp', 'C01.R7')
